@@ -232,6 +232,35 @@ def run(ctx: Ctx) -> int:
         ok = bool(c.args) and root_name(c.args[0]) == "args" and not c.keywords
         ctx.oblige("C12.c", ok, c, "the caller's args are parsed as given" if ok else "parse_args is not called with the caller's args", fn=ac)
 
+    # ---------------- C12.d ---------------------------------------------------
+    # a falsy signature default ('' / 0 / False / []) is still a default: None-ness of `default` is decided by
+    # identity, never by truthiness, where the parameter's annotation / requiredness is derived
+    asp = ctx.func("_signatures:SignatureArguments._add_signature_parameter")
+    n_def = 0
+    for node in walk_local(asp):
+        test = getattr(node, "test", None) if isinstance(node, (ast.If, ast.IfExp, ast.While)) else None
+        if test is None:
+            continue
+        parts = []
+        st_ = [test]
+        while st_:
+            t = st_.pop()
+            if isinstance(t, ast.BoolOp):
+                st_ += t.values
+            elif isinstance(t, ast.UnaryOp) and isinstance(t.op, ast.Not):
+                st_.append(t.operand)
+            else:
+                parts.append(t)
+        for pt in parts:
+            if isinstance(pt, ast.Name) and pt.id == "default":
+                n_def += 1
+                ctx.oblige("C12.d", False, node, "the signature default is tested by truthiness: parameters whose default is '' / 0 / False / [] are treated like parameters defaulting to None (they become Optional and accept null)", fn=asp)
+            elif isinstance(pt, ast.Compare) and isinstance(pt.left, ast.Name) and pt.left.id == "default":
+                n_def += 1
+                ok = all(isinstance(o, (ast.Is, ast.IsNot, ast.Eq, ast.NotEq)) for o in pt.ops)
+                ctx.oblige("C12.d", ok, pt, "the signature default is compared by identity / equality" if ok else "unexpected comparison of the signature default", fn=asp)
+    ctx.floor("C12.d-default-tests", n_def, 2)
+
     ctx.trusted_base += ["argparse raises on conflicting option strings, so an unconditional --config option fails loudly if the component has a `config` parameter"]
     return ctx.finish(
         explanation=(
